@@ -30,7 +30,7 @@ ASSUMPTIONS = [
     "reference ordered-set + TTL model in this file (insertion order of survivors; TTL merged by union/intersection/update/add(ttl))",
     "case-insensitivity of embedded names is demanded for the RFC 4034 §6.2 types (minus NSEC); LP and CH A are owned by C15",
 ]
-REQUIRED = ["mon.immutability_attack", "mon.deep_walk", "mon.eq_hash_order", "mon.set_step", "mon.rdataset_step", "mon.immutable_rdataset_mutator"]
+REQUIRED = ["mon.immutability_attack", "mon.deep_walk", "mon.deep_walk_other_producers", "mon.eq_hash_order", "mon.set_step", "mon.rdataset_step", "mon.immutable_rdataset_mutator"]
 BUDGET = {"quick": 40.0, "thorough": 420.0}
 
 SINGLETONS = {5, 6, 39, 47, 30}  # CNAME SOA DNAME NSEC NXT
@@ -140,6 +140,33 @@ def check_value_immutability(ctx, val):
     deep_walk(ctx, rd, t, set(), bad)
     for path, kind in bad:
         ctx.violation(f"mutable-container-in-record:{t}", f"{path} is a {kind}", case)
+    # the same value as the other producers make it: the wire parser, the text parser, replace()
+    others = []
+    if w0 is not None:
+        try:
+            others.append(("from_wire", dns.rdata.from_wire(rd.rdclass, rd.rdtype, w0, 0, len(w0))))
+        except Exception:
+            pass  # C02 owns decode failures
+        if val.text_ok and t not in GR.META_TYPES:
+            try:
+                others.append(("from_text", dns.rdata.from_text(rd.rdclass, rd.rdtype, rd.to_text())))
+            except Exception:
+                pass  # C05 owns text failures
+    try:
+        others.append(("replace", rd.replace()))
+    except Exception:
+        # LOC.replace() raises AttributeError on the unchanged tree (constructor parameter names differ from the slots);
+        # replace() is not part of this property, only what it returns is: observed
+        ctx.count("obs.replace_raised")
+    for how, other in others:
+        ctx.count("mon.deep_walk")
+        ctx.count("mon.deep_walk_other_producers")
+        bad = []
+        deep_walk(ctx, other, t, set(), bad)
+        for path, kind in bad:
+            ctx.violation(f"mutable-container-in-record:{t}:{how}", f"{path} is a {kind}", dict(case, producer=how))
+        if other != rd or hash(other) != hash(rd):
+            ctx.count(f"obs.{how}_result_not_equal_to_original")  # round trips belong to C02 / C05
     # helper objects held in fields (APL items, SVCB params, EDNS options are not @immutable rdata but must not be rebindable either)
     for a in (getattr(rd, s, None) for s in type(rd).__slots__ if isinstance(type(rd).__slots__, (list, tuple))):
         if isinstance(a, tuple):
